@@ -99,6 +99,7 @@ def universe(root, n):
         for e in (0, 1):
             oc = 10 + 2 * k + e
             out += [(oc * 10 + f, owner_path(root, oc, f)) for f in range(NFK)]
+    out.append((9000, owner_path(root, 1, 4)))     # PMark: the original's .meta is the reconstructor's
     return out
 
 
@@ -193,6 +194,33 @@ def quiet():
         mtscomp._c04_quiet = True
 
 
+def reference_recon(cdir, ob, n, exp):
+    """NP2Reconstructor on the split (original and its .meta removed), then a conversion of the recovered
+    file: reference bytes of the reconstructed .meta and of the metadata derived from it."""
+    from neuropixel import NP2Converter, NP2Reconstructor
+    rc = cdir / "recon"
+    shutil.copytree(cdir / "ref0", rc)
+    (rc / "probe00" / ob.name).unlink()
+    (rc / "probe00" / ob.name).with_suffix(".meta").unlink()
+    rec = NP2Reconstructor(rc, pname="probe00", compress=False)
+    st = rec.process()
+    assert st == 1, "reconstruction returned %r" % (st,)
+    assert sha(rc / "probe00" / ob.name) == exp[10], "reconstruction does not restore the original bytes"
+    exp[9000] = sha((rc / "probe00" / ob.name).with_suffix(".meta"))
+    conv = NP2Converter(rc / "probe00" / ob.name, post_check=True, compress=False)
+    conv.init_params(nwindow=NWINDOW)
+    st = conv.process(overwrite=True)
+    conv.sr.close()
+    assert st == 1, "conversion of the reconstructed original returned %r" % (st,)
+    for code, p in universe(rc, n):
+        if code < 1000 and code // 10 != 1 and p.exists():
+            h = sha(p)
+            if code % 10 == 4:
+                exp[-code] = h
+            else:
+                assert h == exp[code], "conversion of the reconstructed original writes other data (%s)" % p.name
+
+
 def build_reference(base, cfg):
     """Creates base/<cfg>/init (the directory as the user finds it) and returns
     {path code: sha1 of the expected content}; raises AssertionError when the
@@ -256,6 +284,12 @@ def build_reference(base, cfg):
                 r = mtscomp.decompress(d1 / (NAME + ".ap.cbin"), d1 / (NAME + ".ap.ch"))
                 assert r[:].tobytes() == want, "shank %d ap.cbin does not decompress to the gather" % k
                 r.close()
+            try:
+                reference_recon(cdir, ob, n, exp)
+            except AssertionError as e:
+                exp["recon_error"] = str(e)
+            except Exception as e:
+                exp["recon_error"] = repr(e)
     return exp
 
 
@@ -295,7 +329,7 @@ class Sites:
 
     def good(self, code):
         p = dict(universe(self.root, self.n)).get(code)
-        return p is not None and p.is_file() and sha(p) == self.exp.get(code)
+        return p is not None and p.is_file() and sha(p) in (self.exp.get(code), self.exp.get(-code, "-"))
 
     def shanks_good_now(self):
         for k in range(self.n):
@@ -656,18 +690,54 @@ def run_object(root, cfg, exp, opts, calls):
     return out
 
 
+def run_op(root, cfg, exp, r):
+    """User operations between conversions: 100 = remove the leftover x.ap.meta, 101 =
+    NP2Reconstructor(root, "probe00", compress=r["comp"]).process()"""
+    quiet()
+    kind, fixture, n, w, compressed = CONFIGS[cfg]
+    root = root.resolve()
+    obs = {"checked": 0, "already": 2, "processed": 0, "trace": [], "aux": [], "verify_ok": 0}
+    if r["t"] == 100:
+        owner_path(root, 1, 4).unlink(missing_ok=True)
+        obs["outcome"] = 107
+    else:
+        from neuropixel import NP2Reconstructor
+        rec = None
+        try:
+            rec = NP2Reconstructor(root, pname="probe00", compress=bool(r["comp"]))
+            invoke(lambda: rec.process(), obs)
+        except Exception as e:
+            obs["outcome"] = 209
+            obs["exc"] = repr(e)
+        for sh in (getattr(rec, "shank_info", None) or {}).values():
+            try:
+                sh["sr"].close()
+            except Exception:
+                pass
+        rec = None
+        gc.collect()
+    obs.update(observe(root, n, exp))
+    return obs
+
+
 def observe(root, n, exp):
     uni = universe(root, n)
     known = set()
     state = []
     for code, p in uni:
         known.add(p)
-        if code >= 1000:
+        if code == 9000:
+            state.append(2 if p.is_file() and sha(p) == exp.get(9000) else 0)
+        elif code >= 1000:
             state.append(2 if p.is_dir() else 0)
         elif not p.exists():
             state.append(0)
         else:
-            state.append(2 if sha(p) == exp.get(code) else 1)
+            # metadata has two valid contents: derived from SpikeGLX's own .meta (exp[code]) or from the
+            # .meta NP2Reconstructor writes (exp[-code]; for the original itself exp[9000])
+            h = sha(p)
+            state.append(2 if h in (exp.get(code), exp.get(-code, "-"), exp.get(9000, "-") if code == 14 else "-")
+                         else 1)
     extra = [str(p.relative_to(root)) for p in sorted(root.rglob("*"))
              if p not in known and p != root / "probe00"]
     return {"state": state, "extra": extra}
@@ -760,6 +830,7 @@ def oracle(ctx, cfg, runs, obs, pre0, seen):
     prev = pre0
     prev_complete = False
     prev_sub = 0
+    meta_dropped = False
     for i, (r, o) in enumerate(zip(runs, obs)):
         s = st_of(cfg, o)
         p = dict(zip(s.keys(), prev))
@@ -771,6 +842,25 @@ def oracle(ctx, cfg, runs, obs, pre0, seen):
                 seen.add((key, what))
                 ctx.fail(what, case, tags)
         tags = {"kind": kind, "clause": "", "crash": int(r["crash"] >= 0), "ow": r["ow"]}
+        if r["t"] >= 100:
+            # user operations: removing the leftover .meta; NP2Reconstructor (only generated when every
+            # shank folder is complete and the original is gone)
+            if r["t"] == 100:
+                meta_dropped = True
+            else:
+                meta_dropped = False
+                back = (s[11] == 2 and s[13] == 2 and s[10] == 0) if r["comp"] else s[10] == 2
+                if o["outcome"] != 101 or not back or s[14] != 2:
+                    fail("NP2Reconstructor did not restore the original byte for byte from the complete shank "
+                         "folders (outcome %s %s)" % (o["outcome"], o.get("exc", "")), dict(tags, clause="reconstruct"))
+            if o["extra"]:
+                fail("unexpected files appear: %s" % o["extra"][:3], dict(tags, clause="extra"))
+            prev_complete = False
+            prev = list(s.values())
+            continue
+        if o["processed"] and r["t"] < 2:
+            fail("a full recording is taken for an already split shank file (already_processed)",
+                 dict(tags, clause="processed_decision"))
         dirs_before = [p[1000 + k] == 2 for k in range(n)]
         partial_prep = any(dirs_before) and not all(dirs_before)
         changed = list(s.values()) != prev or bool(o.get("digest_changed"))
@@ -780,7 +870,7 @@ def oracle(ctx, cfg, runs, obs, pre0, seen):
             fail("unexpected files appear: %s" % o["extra"][:3], dict(tags, clause="extra"))
         if not recoverable(cfg, s):
             fail("original samples are no longer recoverable after the run", dict(tags, clause="recoverable"))
-        if s[14] != 2:
+        if s[14] != 2 and not meta_dropped:
             fail("original metadata changed or removed", dict(tags, clause="meta"))
         for ev in o["aux"]:
             if ev[0] == "unlink_orig" and not (ev[3] and (ev[2] or kind != 0)):
@@ -937,7 +1027,7 @@ def worker(task):
     base = Path(task["base"])
     cfg = task["cfg"]
     kind, fixture, n, w, compressed = CONFIGS[cfg]
-    exp = {int(k): v for k, v in json.loads((base / cfg / "exp.json").read_text()).items()}
+    exp = {int(k): v for k, v in json.loads((base / cfg / "exp.json").read_text()).items() if k != "recon_error"}
     rng = random.Random(task["seed"])
     LAYOUT["extra"] = task.get("extra", "")
     work = Path(common.tmpdir(prefix="C04_w_"))
@@ -972,6 +1062,8 @@ def worker(task):
     def do(src, r):
         r["extra"] = LAYOUT["extra"]
         d = fresh(src)
+        if r["t"] >= 100:
+            return d, run_op(d, cfg, exp, r)
         dg = digest(d) if (r["crash"] < 0) else None
         o = run_real(d, cfg, exp, r)
         if dg is not None and o["outcome"] in (100, 99, 201):
@@ -1048,7 +1140,7 @@ def reference_job(arg):
         exp = build_reference(base, cfg)
         (base / cfg / "exp.json").write_text(json.dumps(exp))
         m = measure_sync_copy(base, cfg, exp) if cfg == "np24s4w2" else None
-        return ("ok", m)
+        return ("ok", m, exp.get("recon_error"))
     except AssertionError as e:
         return ("assert", str(e))
     except BaseException as e:       # noqa
@@ -1250,6 +1342,17 @@ def make_tasks(ctx, base):
         2 if th else 1, 1, extra="_x")
     add("np24s1w3", [], [mkrun(t=-1, post=1, dele=1, comp=1, sub=0b1), mkrun(t=-1, post=1, dele=0, comp=0)],
         "all" if th else 2, fo, extra="_run2")
+    # split with deletion -> (the user removes the leftover .meta) -> NP2Reconstructor -> convert the
+    # recovered file again, plain / forced / interrupted; a shank file of the split is still refused
+    DROP, REC = mkrun(t=100), (lambda c: mkrun(t=101, comp=c))
+    for cfg, rcomp, drop in (("np24s4w2", 0, 1), ("np24s1w3", 0, 1), ("np24s1w3", 1, 1), ("np24s1w3", 0, 0)) + \
+            ((("np24s4w2", 1, 0), ("np24s4w2", 1, 1)) if th else ()):
+        for c1 in ((0, 1) if th else (rng.randrange(2),)):
+            prefix = [mkrun(t=-1, post=1, dele=1, comp=c1)] + ([dict(DROP)] if drop else []) + [REC(rcomp)]
+            add(cfg, prefix, [mkrun(t=-1, post=1, dele=0, comp=0, ow=1), mkrun(t=-1, post=1, dele=1, comp=1, ow=1),
+                              mkrun(t=-1, post=0, dele=0, comp=1, ow=0)][:3 if th else 2],
+                "all" if th else (2 if cfg == "np24s1w3" else 1), 1)
+            add(cfg, prefix, [mkrun(t=2)], "none", 0)
     tasks += object_tasks(ctx, base)
     return tasks
 
@@ -1338,6 +1441,10 @@ def run(ctx):
             case = {"cfg": cfg, "runs": [mkrun(post=1, dele=0, comp=1)]}
             if tag == "ok" and val[0] == "ok":
                 ok_cfgs.append(cfg)
+                if val[2]:
+                    ctx.fail("split -> NP2Reconstructor -> conversion of the recovered original: %s" % val[2],
+                             {"cfg": cfg, "runs": [mkrun(post=1, dele=1, comp=0), mkrun(t=100), mkrun(t=101, comp=0),
+                                                   mkrun(post=1, dele=0, comp=0, ow=1)]}, {"clause": "reference_recon"})
                 if val[1] is not None:
                     ctx.measurements["sync_copy_of_other_shanks_is_verified"] = val[1]
             elif tag == "ok" and val[0] == "assert":
@@ -1361,7 +1468,7 @@ def run(ctx):
                 hists.append((cfg, runs, obs))
         init_states = {}
         for cfg in ok_cfgs:
-            exp = {int(k): v for k, v in json.loads((base / cfg / "exp.json").read_text()).items()}
+            exp = {int(k): v for k, v in json.loads((base / cfg / "exp.json").read_text()).items() if k != "recon_error"}
             init_states[cfg] = observe((base / cfg / "init").resolve(), CONFIGS[cfg][2], exp)["state"]
     finally:
         shutil.rmtree(base, ignore_errors=True)
